@@ -993,195 +993,203 @@ func stressMain(args []string) {
 	res := stressResult{Race: raceEnabled}
 	orders := map[string]bool{}
 	root := hx.NewRng(seed, "c16-stress")
+	only, repeat := -1, 1
+	if len(args) > 3 {
+		fmt.Sscan(args[3], &only)
+	}
+	if len(args) > 4 {
+		fmt.Sscan(args[4], &repeat)
+	}
 	for run := 0; run < runs && len(res.Violations) < 5; run++ {
-		r := root.Split(fmt.Sprint(run))
-		l := &wlog{}
-		var faultsOn int32 = 1
-		dr := r.Split("delay") // used by the writer goroutine only
-		delay := func(string) {
-			switch dr.Intn(6) {
-			case 0:
-				runtime.Gosched()
-			case 1:
-				time.Sleep(time.Duration(20+dr.Intn(300)) * time.Microsecond)
+		runSeed := root.U64()
+		if only >= 0 && run != only {
+			continue
+		}
+		for rep := 0; rep < repeat && len(res.Violations) < 5; rep++ {
+			r := hx.NewRng(runSeed, fmt.Sprint(run))
+			l := &wlog{}
+			var faultsOn int32 = 1
+			dr := r.Split("delay") // used by the writer goroutine only
+			delay := func(string) {
+				switch dr.Intn(6) {
+				case 0:
+					runtime.Gosched()
+				case 1:
+					time.Sleep(time.Duration(20+dr.Intn(300)) * time.Microsecond)
+				}
 			}
-		}
-		// the yield function is called from the writer goroutine only; r is not shared with adders (they get their own)
-		q := newRecQueue(l, delay)
-		anchor := &recAnchor{log: l, yield: delay}
-		faultP := r.Intn(4) // out of 8
-		var fr sync.Mutex
-		frng := r.Split("faults")
-		coin := func() bool {
-			fr.Lock()
-			defer fr.Unlock()
-			return frng.Intn(8) < faultP
-		}
-		anchor.fail = func(string, int) error {
-			if atomic.LoadInt32(&faultsOn) == 1 && coin() {
-				return errInjected
+			// the yield function is called from the writer goroutine only; r is not shared with adders (they get their own)
+			q := newRecQueue(l, delay)
+			anchor := &recAnchor{log: l, yield: delay}
+			faultP := r.Intn(4) // out of 8
+			var fr sync.Mutex
+			frng := r.Split("faults")
+			coin := func() bool {
+				fr.Lock()
+				defer fr.Unlock()
+				return frng.Intn(8) < faultP
 			}
-			return nil
-		}
-		max := uint(1 + r.Intn(4))
-		mk := func(ver uint64) *stubHandler {
-			h := &stubHandler{log: l, yield: delay, nFiles: 2, ver: ver}
-			h.cas = func([]string, int) error {
+			anchor.fail = func(string, int) error {
 				if atomic.LoadInt32(&faultsOn) == 1 && coin() {
 					return errInjected
 				}
 				return nil
 			}
-			return h
-		}
-		p0, p1 := hx.BaseProtocol(), hx.BaseProtocol()
-		p0.GenesisTime, p1.GenesisTime = 0, 100
-		p0.MaxOperationCount, p1.MaxOperationCount = max, max
-		pc := hx.NewClient(&handlerVersion{p0, mk(0)}, &handlerVersion{p1, mk(100)})
-		w, err := batch.New(hx.Namespace, &writerCtx{pc: pc, a: anchor, q: q}, batch.WithBatchTimeout(3*time.Millisecond), batch.WithMonitorInterval(time.Millisecond))
-		if err != nil {
-			res.Inconclusive = append(res.Inconclusive, err.Error())
-			break
-		}
-		w.Start()
-		nAdders := 2 + r.Intn(7)
-		perAdder := 1 + r.Intn(4)
-		ops := map[string]opInfo{}
-		accepted := map[string]bool{}
-		var amu sync.Mutex
-		var wg sync.WaitGroup
-		var phase int32 // version switch: adders read the current version
-		for a := 0; a < nAdders; a++ {
-			ar := r.Split(fmt.Sprint("adder", a))
-			wg.Add(1)
-			go func(a int) {
-				defer wg.Done()
-				for k := 0; k < perAdder; k++ {
-					ver := uint64(0)
-					if atomic.LoadInt32(&phase) == 1 {
-						ver = 100
+			max := uint(1 + r.Intn(4))
+			mk := func(ver uint64) *stubHandler {
+				h := &stubHandler{log: l, yield: delay, nFiles: 2, ver: ver}
+				h.cas = func([]string, int) error {
+					if atomic.LoadInt32(&faultsOn) == 1 && coin() {
+						return errInjected
 					}
-					o := schedOp{ID: fmt.Sprintf("a%d-%d", a, k), Suffix: fmt.Sprintf("did%d", ar.Intn(4)), Ver: ver, Expired: ar.Chance(1, 12)}
-					amu.Lock()
-					ops[o.ID] = opInfo{o.Ver, o.Suffix, o.Expired}
-					amu.Unlock()
-					l.add(wev{Kind: "add.call", IDs: []string{o.ID}, Ver: ver, G: fmt.Sprint("adder", a)})
-					e := w.Add(o.queued(), ver)
-					l.add(wev{Kind: "add.ret", IDs: []string{o.ID}, Err: errStr(e), G: fmt.Sprint("adder", a)})
-					if e == nil {
-						amu.Lock()
-						accepted[o.ID] = true
-						amu.Unlock()
-					}
-					if ar.Chance(1, 2) {
-						time.Sleep(time.Duration(ar.Intn(1500)) * time.Microsecond)
-					}
-					if ar.Chance(1, 6) {
-						atomic.StoreInt32(&phase, 1)
-					}
+					return nil
 				}
-			}(a)
-		}
-		wg.Wait()
-		atomic.StoreInt32(&faultsOn, 0)
-		// quiescence: every accepted operation anchored or expired (generous wall-clock watchdog => inconclusive)
-		deadline := time.Now().Add(20 * time.Second)
-		quiet := false
-		for time.Now().Before(deadline) {
-			if q.inner.Len() == 0 {
-				// wait for the in-flight batch to be acknowledged
-				time.Sleep(8 * time.Millisecond)
-				if q.inner.Len() == 0 {
-					l.mu.Lock()
-					last := ""
-					for i := len(l.evs) - 1; i >= 0 && last == ""; i-- {
-						if l.evs[i].Kind == "q.ack" || l.evs[i].Kind == "q.nack" || l.evs[i].Kind == "q.remove" {
-							last = l.evs[i].Kind
+				return h
+			}
+			p0, p1 := hx.BaseProtocol(), hx.BaseProtocol()
+			p0.GenesisTime, p1.GenesisTime = 0, 100
+			p0.MaxOperationCount, p1.MaxOperationCount = max, max
+			pc := hx.NewClient(&handlerVersion{p0, mk(0)}, &handlerVersion{p1, mk(100)})
+			w, err := batch.New(hx.Namespace, &writerCtx{pc: pc, a: anchor, q: q}, batch.WithBatchTimeout(3*time.Millisecond), batch.WithMonitorInterval(time.Millisecond))
+			if err != nil {
+				res.Inconclusive = append(res.Inconclusive, err.Error())
+				break
+			}
+			w.Start()
+			nAdders := 2 + r.Intn(7)
+			perAdder := 1 + r.Intn(4)
+			ops := map[string]opInfo{}
+			accepted := map[string]bool{}
+			var amu sync.Mutex
+			var wg sync.WaitGroup
+			var phase int32 // version switch: adders read the current version
+			for a := 0; a < nAdders; a++ {
+				ar := r.Split(fmt.Sprint("adder", a))
+				wg.Add(1)
+				go func(a int) {
+					defer wg.Done()
+					for k := 0; k < perAdder; k++ {
+						ver := uint64(0)
+						if atomic.LoadInt32(&phase) == 1 {
+							ver = 100
+						}
+						o := schedOp{ID: fmt.Sprintf("a%d-%d", a, k), Suffix: fmt.Sprintf("did%d", ar.Intn(4)), Ver: ver, Expired: ar.Chance(1, 12)}
+						amu.Lock()
+						ops[o.ID] = opInfo{o.Ver, o.Suffix, o.Expired}
+						amu.Unlock()
+						l.add(wev{Kind: "add.call", IDs: []string{o.ID}, Ver: ver, G: fmt.Sprint("adder", a)})
+						e := w.Add(o.queued(), ver)
+						l.add(wev{Kind: "add.ret", IDs: []string{o.ID}, Err: errStr(e), G: fmt.Sprint("adder", a)})
+						if e == nil {
+							amu.Lock()
+							accepted[o.ID] = true
+							amu.Unlock()
+						}
+						if ar.Chance(1, 2) {
+							time.Sleep(time.Duration(ar.Intn(1500)) * time.Microsecond)
+						}
+						if ar.Chance(1, 6) {
+							atomic.StoreInt32(&phase, 1)
 						}
 					}
-					l.mu.Unlock()
-					if last == "q.ack" || last == "" {
+				}(a)
+			}
+			wg.Wait()
+			atomic.StoreInt32(&faultsOn, 0)
+			// quiescence: every accepted operation anchored or expired (generous wall-clock watchdog => inconclusive)
+			deadline := time.Now().Add(20 * time.Second)
+			quiet := false
+			for time.Now().Before(deadline) {
+				// quiet = nothing queued and no batch between the queue and its acknowledgement (the counter is raised before the
+				// batch leaves the queue and lowered after its ack / nack event is in the log: an earlier version looked at the last
+				// logged event instead and, on a loaded machine, declared quiescence while a removed batch had not been logged yet)
+				if q.inner.Len() == 0 && atomic.LoadInt32(&q.busy) == 0 {
+					time.Sleep(8 * time.Millisecond)
+					if q.inner.Len() == 0 && atomic.LoadInt32(&q.busy) == 0 {
 						quiet = true
 						break
 					}
 				}
+				time.Sleep(2 * time.Millisecond)
 			}
-			time.Sleep(2 * time.Millisecond)
-		}
-		w.Stop()
-		time.Sleep(5 * time.Millisecond)
-		res.Runs++
-		l.mu.Lock()
-		evs := append([]wev{}, l.evs...)
-		l.mu.Unlock()
-		sort.Slice(evs, func(i, j int) bool { return evs[i].Seq < evs[j].Seq })
-		if !quiet {
-			res.Inconclusive = append(res.Inconclusive, fmt.Sprintf("run %d did not quiesce within the watchdog", run))
-			continue
-		}
-		problems := checkWriterLog(evs, ops, accepted, int(max), false)
-		for _, p := range problems {
-			res.Violations = append(res.Violations, fmt.Sprintf("run %d (max=%d adders=%d): %s", run, max, nAdders, p))
-		}
-		// porcupine on the queue boundary
-		var hist []porcupine.Operation
-		inFlight, addDuring := false, false
-		var sig strings.Builder
-		for _, e := range evs {
-			sig.WriteString(e.Kind + ";")
-			res.Events++
-			var in qIn
-			var out qOut
-			switch e.Kind {
-			case "q.add":
-				in, out = qIn{Op: "add", ID: e.IDs[0]}, qOut{N: e.N}
-				if inFlight {
-					addDuring = true
-				}
-			case "q.len":
-				in, out = qIn{Op: "len"}, qOut{N: e.N}
-			case "q.peek":
-				in, out = qIn{Op: "peek", N: e.N}, qOut{IDs: strings.Join(e.IDs, ",")}
-			case "q.remove":
-				in, out = qIn{Op: "remove", N: e.N}, qOut{IDs: strings.Join(e.IDs, ",")}
-				inFlight = true
-			case "q.ack":
-				in, out = qIn{Op: "ack"}, qOut{N: e.N}
-				inFlight = false
-			case "q.nack":
-				in = qIn{Op: "nack"}
-				inFlight = false
-				res.Nacks++
-			default:
+			w.Stop()
+			time.Sleep(5 * time.Millisecond)
+			res.Runs++
+			l.mu.Lock()
+			evs := append([]wev{}, l.evs...)
+			l.mu.Unlock()
+			sort.Slice(evs, func(i, j int) bool { return evs[i].Seq < evs[j].Seq })
+			if !quiet {
+				res.Inconclusive = append(res.Inconclusive, fmt.Sprintf("run %d did not quiesce within the watchdog", run))
 				continue
 			}
-			hist = append(hist, porcupine.Operation{ClientId: 0, Input: in, Call: e.CallSeq, Output: out, Return: e.Seq})
-		}
-		if addDuring {
-			res.AddDuringFlight++
-		}
-		orders[ref.EncMultihash(ref.SHA256, []byte(sig.String()))] = true
-		// client ids: porcupine only needs well-formed intervals
-		for i := range hist {
-			hist[i].ClientId = i % 64
-		}
-		result, _ := porcupine.CheckOperationsVerbose(queueModel, hist, 30*time.Second)
-		switch result {
-		case porcupine.Ok:
-			res.PorcupineOK++
-		case porcupine.Illegal:
-			var h []string
-			for _, o := range hist {
-				h = append(h, fmt.Sprintf("[%d,%d] %v -> %v", o.Call, o.Return, o.Input, o.Output))
+			problems := checkWriterLog(evs, ops, accepted, int(max), false)
+			for _, p := range problems {
+				res.Violations = append(res.Violations, fmt.Sprintf("run %d (max=%d adders=%d): %s", run, max, nAdders, p))
 			}
-			res.Violations = append(res.Violations, fmt.Sprintf("run %d: queue history is not linearizable w.r.t. the sequential FIFO queue model (E2): %s", run, trunc600(strings.Join(h, " | "))))
-		default:
-			res.PorcupineUnk++
-			res.Inconclusive = append(res.Inconclusive, fmt.Sprintf("run %d: porcupine timed out", run))
-		}
-		if run == 0 {
-			for _, e := range evs[:minInt(len(evs), 25)] {
-				res.Sample = append(res.Sample, fmt.Sprintf("%d %s %s%v", e.Seq, e.G, e.Kind, e.IDs))
+			if len(problems) > 0 && os.Getenv("VERIF_C16_DUMP") != "" {
+				_ = os.WriteFile(os.Getenv("VERIF_C16_DUMP"), []byte(strings.Join(logStrings(evs), "\n")), 0o644)
+			}
+			// porcupine on the queue boundary
+			var hist []porcupine.Operation
+			inFlight, addDuring := false, false
+			var sig strings.Builder
+			for _, e := range evs {
+				sig.WriteString(e.Kind + ";")
+				res.Events++
+				var in qIn
+				var out qOut
+				switch e.Kind {
+				case "q.add":
+					in, out = qIn{Op: "add", ID: e.IDs[0]}, qOut{N: e.N}
+					if inFlight {
+						addDuring = true
+					}
+				case "q.len":
+					in, out = qIn{Op: "len"}, qOut{N: e.N}
+				case "q.peek":
+					in, out = qIn{Op: "peek", N: e.N}, qOut{IDs: strings.Join(e.IDs, ",")}
+				case "q.remove":
+					in, out = qIn{Op: "remove", N: e.N}, qOut{IDs: strings.Join(e.IDs, ",")}
+					inFlight = true
+				case "q.ack":
+					in, out = qIn{Op: "ack"}, qOut{N: e.N}
+					inFlight = false
+				case "q.nack":
+					in = qIn{Op: "nack"}
+					inFlight = false
+					res.Nacks++
+				default:
+					continue
+				}
+				hist = append(hist, porcupine.Operation{ClientId: 0, Input: in, Call: e.CallSeq, Output: out, Return: e.Seq})
+			}
+			if addDuring {
+				res.AddDuringFlight++
+			}
+			orders[ref.EncMultihash(ref.SHA256, []byte(sig.String()))] = true
+			// client ids: porcupine only needs well-formed intervals
+			for i := range hist {
+				hist[i].ClientId = i % 64
+			}
+			result, _ := porcupine.CheckOperationsVerbose(queueModel, hist, 30*time.Second)
+			switch result {
+			case porcupine.Ok:
+				res.PorcupineOK++
+			case porcupine.Illegal:
+				var h []string
+				for _, o := range hist {
+					h = append(h, fmt.Sprintf("[%d,%d] %v -> %v", o.Call, o.Return, o.Input, o.Output))
+				}
+				res.Violations = append(res.Violations, fmt.Sprintf("run %d: queue history is not linearizable w.r.t. the sequential FIFO queue model (E2): %s", run, trunc600(strings.Join(h, " | "))))
+			default:
+				res.PorcupineUnk++
+				res.Inconclusive = append(res.Inconclusive, fmt.Sprintf("run %d: porcupine timed out", run))
+			}
+			if run == 0 {
+				for _, e := range evs[:minInt(len(evs), 25)] {
+					res.Sample = append(res.Sample, fmt.Sprintf("%d %s %s%v", e.Seq, e.G, e.Kind, e.IDs))
+				}
 			}
 		}
 	}
